@@ -17,12 +17,18 @@ type Action struct {
 	Write []byte // bytes to write (may be nil)
 	Cuts  []int  // optional segmentation of Write
 	Close bool   // close the connection afterwards
+	// NoRead (early answers only): after writing, never read another byte of
+	// this connection; it is held open until the peer or Shutdown closes it.
+	NoRead bool
 }
 
 // Received is one request as parsed by the origin's own parser.
 type Received struct {
 	Conn int
 	Msg  *Msg
+	// Early: the request was answered as soon as its head was complete; Msg
+	// holds the head (and whatever part of the body had arrived).
+	Early bool
 }
 
 // Origin is a scripted raw origin server (in-memory or loopback TCP).
@@ -33,6 +39,11 @@ type Origin struct {
 	// OnConn, if set and returning non-nil, is performed right after accept
 	// without reading a request.
 	OnConn func(conn int) *Action
+	// EarlyHead, if set, is asked once per request as soon as the head is
+	// complete while the body is not: a non-nil Action is the origin's answer,
+	// sent before (NoRead: instead of) reading the rest of the body. The
+	// request is then not passed to Handle again.
+	EarlyHead func(conn, idx int, head *Msg) *Action
 
 	tcp  net.Listener
 	cap  int
@@ -41,6 +52,7 @@ type Origin struct {
 	cs   []net.Conn
 	n    int
 	shut bool
+	done chan struct{}
 	wg   sync.WaitGroup
 
 	in, out int64
@@ -48,7 +60,7 @@ type Origin struct {
 
 // NewOrigin starts an origin.
 func NewOrigin(tcp bool, capacity int) (*Origin, error) {
-	o := &Origin{cap: capacity}
+	o := &Origin{cap: capacity, done: make(chan struct{})}
 	if tcp {
 		t, err := net.Listen("tcp", "127.0.0.1:0")
 		if err != nil {
@@ -145,6 +157,7 @@ func (o *Origin) serve(conn int, c net.Conn) {
 	rb := make([]byte, 64<<10)
 	need := 0 // do not try to parse before len(buf) >= need
 	chunkedWait := false
+	answered := false // the request being read was answered early
 	idx := 0
 	for {
 		n, err := c.Read(rb)
@@ -157,10 +170,31 @@ func (o *Origin) serve(conn int, c net.Conn) {
 			}
 			// the upstream never pipelines, so a complete chunked message ends
 			// the buffer with CRLF CRLF
-			if chunkedWait && !bytes.HasSuffix(buf, crlfcrlf) {
+			// (not after an early answer: the transport may then send the next
+			// request directly behind the body)
+			if chunkedWait && !answered && !bytes.HasSuffix(buf, crlfcrlf) {
 				break
 			}
 			m := ParseRequest(buf)
+			if m.Outcome == StIncomplete && m.HeadLen > 0 && !answered && o.EarlyHead != nil {
+				if a := o.EarlyHead(conn, idx, m); a != nil {
+					cp := *m
+					cp.Body = append([]byte(nil), m.Body...)
+					cp.BodyRaw = nil
+					o.mu.Lock()
+					o.reqs = append(o.reqs, Received{conn, &cp, true})
+					o.mu.Unlock()
+					answered = true
+					idx++
+					if !o.perform(c, *a) {
+						return
+					}
+					if a.NoRead {
+						<-o.done
+						return
+					}
+				}
+			}
 			if m.Outcome == StIncomplete {
 				need = len(buf) + 1
 				if m.Framing == "cl" {
@@ -172,16 +206,22 @@ func (o *Origin) serve(conn int, c net.Conn) {
 			need, chunkedWait = 0, false
 			if m.Outcome == StMalformed {
 				o.mu.Lock()
-				o.reqs = append(o.reqs, Received{conn, m})
+				o.reqs = append(o.reqs, Received{conn, m, false})
 				o.mu.Unlock()
 				return
+			}
+			if answered {
+				// already answered early; the body has now been read to its end
+				answered = false
+				buf = buf[m.Len:]
+				continue
 			}
 			// own the bytes: buf is re-used
 			cp := *m
 			cp.Body = append([]byte(nil), m.Body...)
 			cp.BodyRaw = nil
 			o.mu.Lock()
-			o.reqs = append(o.reqs, Received{conn, &cp})
+			o.reqs = append(o.reqs, Received{conn, &cp, false})
 			o.mu.Unlock()
 			buf = buf[m.Len:]
 			if o.Handle == nil {
@@ -224,6 +264,9 @@ func (o *Origin) Activity() string {
 // connection goroutines.
 func (o *Origin) Shutdown() {
 	o.mu.Lock()
+	if !o.shut {
+		close(o.done)
+	}
 	o.shut = true
 	cs := o.cs
 	o.mu.Unlock()
